@@ -113,7 +113,7 @@ def extract(config, no_cache=False, log=None):
     os.makedirs(CACHE, exist_ok=True)
     did = driver_id()
     th = tree_hash(REPO, extra=[did])
-    sub = config
+    sub = config + "-v2"    # v2: the derive crate is extracted with the library
     if config == "probe":
         sub = "probe-" + tree_hash(os.path.join(VERIF, "probe"))[:16]
     dest = os.path.join(CACHE, th[:32], sub)
@@ -135,7 +135,7 @@ def extract(config, no_cache=False, log=None):
             else:
                 cwd = REPO
                 args = CONFIGS[config]
-                crates = "*" if config == "all-targets" else "shred"
+                crates = "*" if config == "all-targets" else "shred,shred_derive"
             cmd = ["cargo", "+nightly", "check", "--offline"] + args
             p = subprocess.run(cmd, cwd=cwd, env=_env(tmp_out, target, crates), stdout=subprocess.PIPE, stderr=subprocess.STDOUT)
             text = p.stdout.decode(errors="replace")
